@@ -19,8 +19,8 @@ For each change, also write a DEMONSTRATION: a new Rust test (e.g. a new file un
 Procedure you must follow and report:
  1. Read the relevant code. Decide on the change. Apply it.
  2. Build: cd {wt} && CARGO_TARGET_DIR={wt}/target cargo build --offline -p jj-cli  (and cargo test --no-run for what you need).
- 3. Run the existing tests that exercise the area, then the whole suite once: cd {wt} && CARGO_TARGET_DIR={wt}/target cargo nextest run --workspace --offline --no-fail-fast 2>&1 | tail -30  (if nextest is unavailable: cargo test --workspace --offline). ALL existing tests must still pass with your change (ignore tests that also fail on the unmodified tree; check with git stash if in doubt). If a test fails, refine the change until none does.
- 4. Show the demonstration failing with the change and passing without it (git stash the source change, keep the demo, rerun).
+ 3. Run the existing tests that exercise the area, then the whole suite once: cd {wt} && CARGO_TARGET_DIR={wt}/target cargo nextest run --workspace --offline --no-fail-fast 2>&1 | tail -30  (if nextest is unavailable: cargo test --workspace --offline). ALL existing tests must still pass with your change (ignore tests that also fail on the unmodified tree; check by reverting your change with `git apply -R` if in doubt; NEVER use `git stash` -- the stash is shared with other worktrees). If a test fails, refine the change until none does.
+ 4. Show the demonstration failing with the change and passing without it (save your source change with `git diff > change.patch`, revert it with `git apply -R change.patch`, keep the demo, rerun; do NOT use git stash).
  5. Save deliverables in {wt}/out/<name>/ for each change (name = short kebab-case):
       patch.diff   = `git diff` of the SOURCE change only (not the demo test)
       demo.diff    = `git diff` (or the new files) of the demonstration only, plus how to run it
